@@ -1292,8 +1292,10 @@ class VectorImpl : public VectorDestr<T, Alloc, SizeType, WithInlineElements, Gr
     assert(first <= last && first >= this->cbegin() && last <= cend());
     iterator mfirst = const_cast<iterator>(first);
     SizeType n = static_cast<SizeType>(last - first);
-    erase_n(mfirst, n, static_cast<SizeType>(this->size() - (last - this->begin())));
-    this->setSize(this->size() - n);
+    if (n != 0) {
+      erase_n(mfirst, n, static_cast<SizeType>(this->size() - (last - this->begin())));
+      this->setSize(this->size() - n);
+    }
     return mfirst;
   }
 
